@@ -142,6 +142,8 @@ CASES = [
     ("star_call", "star_call", ANY, lambda m, a, b: m.star_call(a, b), False),
     ("mk_pair", "mk_pair", ANY, lambda m, a, b: m.mk_pair(a, b), False),
     ("box_pair", "box_pair", ANY, lambda m, a, b: m.box_pair(a, b), False),
+    ("dup_steal", "dup_steal", ANY, lambda m, a, b: m.dup_steal(a), False),
+    ("dup_steal_list", "dup_steal_list", ANY, lambda m, a, b: m.dup_steal_list(a), False),
     ("unpack_first", "unpack_first", ANY, lambda m, a, b: m.unpack_first((a, b)), False),
     ("unpack_first.bad", "unpack_first", ANY, lambda m, a, b: m.unpack_first((a, b, a)), True),
     ("unpack_call", "unpack_call", ANY, lambda m, a, b: m.unpack_call(a, b), False),
